@@ -19,6 +19,7 @@ HARNESSES = {
         ("c18_generate_any_seed", "qt", 300, False, "no overflow panic and values in range for every 64-bit seed (two calls)"),
         ("c18_generate_minmax", "qt", 600, False, "generate(min,max) in [min,max] for every state and all finite min<=max with |.|<=1e6"),
         ("c18_generate_minmax_wide", "qt", 600, False, "generate(min,max) in [min,max] for every state and ALL finite min<=max (the width max-min may overflow to +inf; state 0 then multiplies 0 by inf)"),
+        ("c18_purity_multiples_of_modulus", "qt", 600, False, "two generators created from the same seed k*(2^31-1), k in {0,1,2,1000,2^32,8589934588}, agree on their first two values (arbitrary clock)"),
         ("c18_purity_one_step", "qt", 600, False, "two generators created from the same seed agree bit-for-bit on the first value, every state"),
         ("c18_purity_two_steps_small_seeds", "qt", 900, False, "… and on the first two values for seeds < 2^16"),
         ("c18_purity", "t", 3600, False, "two generators created from the same seed produce bit-identical sequences (2 steps), every state"),
@@ -87,7 +88,9 @@ def parse(out):
 
 
 def run_harness(name, timeout, extra=()):
-    cmd = ["cargo", "kani", "-Z", "stubbing", "--harness", name, "--target-dir", target_dir()] + list(extra)
+    # harnesses without their own bound get 8 (loops and recursion, e.g. std's Timespec::sub_timespec, which calls itself
+    # with swapped arguments); Kani's unwinding assertions report a bound that is too small
+    cmd = ["cargo", "kani", "-Z", "stubbing", "--default-unwind", "8", "--harness", name, "--target-dir", target_dir()] + list(extra)
     t0 = time.time()
     try:
         p = subprocess.run(cmd, cwd=KANI_DIR, env=kani_env(), stdout=subprocess.PIPE, stderr=subprocess.STDOUT, text=True, timeout=timeout)
